@@ -115,6 +115,8 @@ theorem shr_kill (c : Cfg) (s : St) : Shr s (kill c s) := by
 theorem shr_step (c : Cfg) (s : St) (e : Ev) : Shr s (step c s e) := by
   cases e with
   | nodeDone n => exact Shr.ofEq rfl rfl
+  | nodeFailed n => exact Shr.refl s
+  | nodeReset n => exact Shr.refl s
   | removeEmpty => exact Shr.ofFrame (foldRemove_frame (fun a => (c.namesOf a).isEmpty) s.dom s)
   | cacheMap => exact Shr.ofEq (cacheMap_disk c s) (cacheMap_removed c s)
   | early upto =>
@@ -183,6 +185,8 @@ theorem exact_step_nonvol (c : Cfg) (s : St) (hv : c.volatile = false) (hs : c.s
     (x : Exact s) : Exact (step c s e) := by
   cases e with
   | nodeDone n => exact x.ofEq rfl rfl
+  | nodeFailed n => exact x
+  | nodeReset n => exact x
   | removeEmpty =>
     have f := foldRemove_frame (fun a => (c.namesOf a).isEmpty) s.dom s
     exact x.ofEq f.removed f.report
